@@ -86,6 +86,17 @@ def run(ctx):
         except Exception as e:
             bad("interpolate raises", {"error": type(e).__name__ + ": " + str(e)[:100]}); continue
         rd, rm, rc = np.asarray(res.data.data, dtype=np.float64), np.asarray(ma.getmaskarray(res.data)), np.asarray(res.confidence, dtype=np.float64)
+        # interpolation is a function of the body: the body is left as it was, and asking again gives the same answer
+        try:
+            res2 = body.interpolate(new_fps=new_fps, kind=kind)
+            same = (np.array_equal(ma.getmaskarray(res2.data), rm) and np.array_equal(np.asarray(res2.confidence, dtype=np.float64), rc, equal_nan=True)
+                    and np.array_equal(np.where(rm, 0, np.asarray(res2.data.data, dtype=np.float64)), np.where(rm, 0, rd), equal_nan=True))
+        except Exception:
+            same = False
+        src_ok = (np.array_equal(np.asarray(body.data.data), data) and np.array_equal(np.asarray(body.confidence), conf)
+                  and np.array_equal(ma.getmaskarray(body.data), np.repeat((conf == 0)[..., None], D, axis=3)) and float(body.fps) == float(fps))
+        if not (same and src_ok):
+            bad("interpolate changes the body it is applied to, or gives another result the second time", {"source_unchanged": bool(src_ok), "second_result_equal": bool(same)}); continue
         newF = round(F * new_fps / fps)
         if rd.shape != (newF, P, N, D) or float(res.fps) != float(new_fps):
             bad("frame count / rate of the result", {"shape": list(rd.shape), "want_frames": newF, "fps": float(res.fps)}); continue
